@@ -64,6 +64,10 @@ def run_goal(goal):
     db = SP.load_all()
     V = e2.Verifier(units, db)
     for rec in recs.split(','):
+        # value semantics (R17): a memberwise copy is an independent value only if no member points or refers into another object
+        shared = [(fn, ft) for fn, ft in V.records.fields(rec) if ft.startswith('ptr<') or ft.startswith('iter') or (ft.startswith('other:') and ('*' in ft or '&' in ft))]
+        out['obligations'].append({'id': 'static:copy_semantics:%s:no_pointer_members' % rec, 'kind': 'static-fact', 'text': 'no member of %s is a pointer, reference or iterator, so that a memberwise copy is an independent value%s' % (rec, ''.join('; member %s has type %s' % x for x in shared)),
+                                   'verdict': 'failed' if shared else 'proved', 'backend': 'ast-scan', 'seconds': 0.0, 'model': None, 'log': []})
         user_ops = []
         for u in units:
             for m, d in u.funcs.items():
